@@ -848,7 +848,7 @@ CONTEXTS = {
         lambda s: _p_attr(s),  # metadata only: attribute expressions are rewritten to numbers
         # (a python list of expressions `{1.75 * p, 2.75 * p}` is not rewritten in the unexpanded model, only its scalars
         # in the expanded one are: equal at the declared value of p only, and the grid moves p)
-        lambda s: _value_keeps_symbol_shape(s, ("parameter",)) and not any(s[a] == "list-mx" for a in ("start", "min", "max", "nominal")),
+        lambda s: _value_keeps_symbol_shape(s, ("parameter", "constant")) and not any(s[a] == "list-mx" for a in ("start", "min", "max", "nominal")),
         True,
     ),
     "detect_aliases": (
